@@ -1,5 +1,8 @@
 (* apidrv.ml — correspondence for the `api` stream: Match accessors, replace*, escape. *)
 open Model
+module String = Stdlib.String
+module List = Stdlib.List
+type string = Stdlib.String.t
 open Conv
 
 let split s = List.filter (fun x -> x <> "") (String.split_on_char ' ' s)
